@@ -349,3 +349,10 @@ def load(config="full", repo=None):
         d, th, n = facts_dir_for(config, repo)
         _LOADED[key] = Facts(d, th, n, config)
     return _LOADED[key]
+
+
+def ensure(configs, jobs=4, repo=None):
+    """extract the facts of several cfg configurations in parallel (thorough tier)"""
+    from concurrent.futures import ThreadPoolExecutor
+    with ThreadPoolExecutor(max_workers=jobs) as ex:
+        list(ex.map(lambda c: facts_dir_for(c, repo), configs))
